@@ -1,5 +1,117 @@
-(* C15 — property theorems only (each closed by [exact]) + Print Assumptions. *)
-From Coq Require Import ZArith List.
-From Verif Require Import Common.Bytes Kv.Adapter.
+(* C15 — property theorems only (each closed by [exact]) + Print Assumptions.
+   KV store adapters are ordered maps with atomic batches and snapshot readers.
+   Model: Kv/Adapter.v (transcription of /repo/index/upsidedown/store/{boltdb,goleveldb,gtreap,moss,metrics}
+   and of upsidedown's merge operator); the engines are ordered maps. *)
+From Coq Require Import ZArith List Sorted.
+From Verif Require Import Common.Bytes Kv.Adapter Kv.AdapterProofs Kv.AdapterIterProofs Kv.AdapterIterFinal.
 Import ListNotations.
 Local Open Scope Z_scope.
+
+(* Any sequence of batches of set / delete / merge leaves the store a map sorted by key without duplicate
+   keys whose contents are the batches applied one after the other, each as a whole: per key the last
+   set/delete of the batch, merges folded by the configured operator over the pre-batch value — for each of
+   the three ways the adapters order merges against set/delete of the same key. *)
+Theorem C15_batch_atomic_refines :
+  forall (pol : policy) (mo : merge_op) (bs : list (list bop)) (m m' : kvmap),
+    msorted m -> exec_batches pol mo m bs = Some m' ->
+    msorted m' /\ NoDup (map fst m') /\
+    forall k, m_get m' k = spec_batches pol mo (m_get m) bs k.
+Proof. exact batch_atomic_refines. Qed.
+Print Assumptions C15_batch_atomic_refines.
+
+(* ... and a sorted map is determined by its contents: the store EQUALS that ordered map *)
+Theorem C15_store_determined_by_contents :
+  forall m1 m2, msorted m1 -> msorted m2 -> (forall k, m_get m1 k = m_get m2 k) -> m1 = m2.
+Proof. exact msorted_ext. Qed.
+Print Assumptions C15_store_determined_by_contents.
+
+(* A reader keeps the map it was opened on whatever happens afterwards (batches, other readers opened or
+   closed); every answer it gives is a function of that map. *)
+Theorem C15_reader_isolated :
+  forall (pol : policy) (mo : merge_op) (os : list sop) (st st' : sstate) (rid : Z) (snap : kvmap),
+    reader_view st rid = Some snap ->
+    Forall (fun o => o <> OpOpen rid /\ o <> OpClose rid) os ->
+    store_run pol mo st os = Some st' ->
+    reader_view st' rid = Some snap.
+Proof. exact reader_isolated. Qed.
+Print Assumptions C15_reader_isolated.
+
+Theorem C15_reader_sees_map_at_creation :
+  forall (pol : policy) (mo : merge_op) (st : sstate) (rid : Z) (st' : sstate),
+    store_step pol mo st (OpOpen rid) = Some st' -> reader_view st' rid = Some (st_map st).
+Proof. exact reader_open_sees_current. Qed.
+Print Assumptions C15_reader_sees_map_at_creation.
+
+(* Prefix iteration: for gtreap, boltdb, goleveldb (and metrics over any of them), and for moss with a
+   correct prefix successor, under any program of Seek / Next (Next issued only while the iterator is valid),
+   what Current() shows after construction and after every operation is exactly what the spec iterator over
+   prefix_entries shows: the entries having the prefix, in byte order, from the last seek key on. *)
+Theorem C15_prefix_iter_exact :
+  forall (v : variant) (m : kvmap) (p : option bytes) (prog : list iop),
+    variant_repaired v -> msorted m -> valid_keys m -> valid_opt p -> valid_prog prog ->
+    iter_run (prefix_iterator v m p) prog = spec_run (prefix_entries m (ob p)) prog.
+Proof. exact prefix_iter_exact. Qed.
+Print Assumptions C15_prefix_iter_exact.
+
+(* the repaired incrementBytes (strip trailing 0xff, bump the last remaining byte) is such a successor *)
+Theorem C15_moss_repaired_successor : variant_repaired (VMoss incr_strip).
+Proof. exact variant_repaired_strip. Qed.
+Print Assumptions C15_moss_repaired_successor.
+
+(* with TODAY's incrementBytes (increment with carry) the statement is false: prefix 61 ff, key 62 *)
+Theorem C15_moss_prefix_refuted :
+  exists m p prog,
+    msorted m /\ valid_keys m /\ valid_opt p /\ valid_prog prog /\
+    iter_run (prefix_iterator (VMoss incr_carry) m p) prog <> spec_run (prefix_entries m (ob p)) prog.
+Proof. exact moss_prefix_refuted. Qed.
+Print Assumptions C15_moss_prefix_refuted.
+
+(* Range iteration over [s, e) (nil e = unbounded): every variant, today's moss included. *)
+Theorem C15_range_iter_exact :
+  forall (v : variant) (m : kvmap) (s e : option bytes) (prog : list iop),
+    msorted m -> valid_opt s -> valid_prog prog ->
+    iter_run (range_iterator v m s e) prog = spec_run (range_entries m (ob s) e) prog.
+Proof. exact range_iter_exact. Qed.
+Print Assumptions C15_range_iter_exact.
+
+(* Seek: whatever was done before, Seek k followed by n Next shows the n-th (from 0) of the spec entries
+   that are at or after k, nothing once they are exhausted. *)
+Theorem C15_seek_exact_prefix :
+  forall (v : variant) (m : kvmap) (p : option bytes) (prog : list iop) (k : bytes) (n : nat),
+    variant_repaired v -> msorted m -> valid_keys m -> valid_opt p -> valid_prog prog -> valid_bytes k = true ->
+    last (iter_run (prefix_iterator v m p) (prog ++ ISeek k :: repeat INext n)) None =
+    nth_error (seek_entries (prefix_entries m (ob p)) k) n.
+Proof. exact seek_exact_prefix. Qed.
+Print Assumptions C15_seek_exact_prefix.
+
+Theorem C15_seek_exact_range :
+  forall (v : variant) (m : kvmap) (s e : option bytes) (prog : list iop) (k : bytes) (n : nat),
+    msorted m -> valid_opt s -> valid_prog prog -> valid_bytes k = true ->
+    last (iter_run (range_iterator v m s e) (prog ++ ISeek k :: repeat INext n)) None =
+    nth_error (seek_entries (range_entries m (ob s) e) k) n.
+Proof. exact seek_exact_range. Qed.
+Print Assumptions C15_seek_exact_range.
+
+(* ... and those entries are in byte order without duplicates *)
+Theorem C15_iteration_in_byte_order :
+  forall (m : kvmap) (p s : bytes) (e : option bytes) (k : bytes),
+    msorted m ->
+    msorted (seek_entries (prefix_entries m p) k) /\ msorted (seek_entries (range_entries m s e) k).
+Proof. exact seek_entries_sorted. Qed.
+Print Assumptions C15_iteration_in_byte_order.
+
+(* upsidedown's dictionary merge operator: FullMerge on an existing count c (absent / empty = 0) and
+   little-endian int64 deltas returns the Uvarint of c with the deltas added in order, each addition
+   saturating at 0 and wrapping modulo 2^64. *)
+Theorem C15_merge_counter_spec :
+  forall (key : bytes) (existing : option bytes) (c : Z) (ds : list Z),
+    3 <= Z.of_nat (length key) ->
+    match existing with
+    | Some (b :: e) => exists n, uvarint (b :: e) = (c, n) /\ 0 < n
+    | _ => c = 0
+    end ->
+    0 <= c < two64 ->
+    Forall (fun d => - two63 <= d < two63) ds ->
+    udc_full key existing (map i64_bytes ds) = put_uvarint (fold_left counter_add ds c).
+Proof. exact merge_counter_spec. Qed.
+Print Assumptions C15_merge_counter_spec.
